@@ -18,9 +18,25 @@ def replay_flow(rep, module, cases, *, k=1, env=None, timeout=900, nontrivial=No
     verdicts = [r for r in rows if "ok" in r]
     if len(verdicts) < len(cases):
         raise vlib.ToolError("%s: harness returned %d verdicts for %d cases" % (module, len(verdicts), len(cases)))
-    for r in rows:
-        if ("ok" in r and not r["ok"]) or r.get("extra"):
-            rep.mismatch(r["key"], r["detail"])
+    bad = [r for r in rows if ("ok" in r and not r["ok"]) or r.get("extra")]
+    known = set(vlib.known_findings(rep.pid).keys())
+    if any(r["key"] not in known for r in bad):
+        # A replay is deterministic (same cases, same seeds, a serialised driver): a mismatch that says something about the code
+        # shows again when the same replay is run again.  One that does not is scheduling noise of the rig under load (seen once:
+        # 1 frame missing in 128 840 WebSocket exchanges while 20 other jobs were running) - it is kept in the evidence, not
+        # reported as a violation.
+        opath2 = os.path.join(wd, "verdicts-%s-rerun.ndjson" % module)
+        vlib.vh(["replay", module, cpath, opath2], env=e, timeout=timeout)
+        again = {(r.get("i"), r.get("k"), r["key"]) for r in vlib.read_ndjson(opath2) if ("ok" in r and not r["ok"]) or r.get("extra")}
+        kept = [r for r in bad if (r.get("i"), r.get("k"), r["key"]) in again or r["key"] in known]
+        lost = [r for r in bad if r not in kept]
+        if lost:
+            vlib.log("  note: %d mismatch(es) did not reproduce when the same replay was run again: %s" % (len(lost), sorted({r["key"] for r in lost})))
+            rep.cov.setdefault("mismatches_not_reproduced_on_rerun", []).extend(
+                {"key": r["key"], "i": r.get("i"), "k": r.get("k"), "detail": r["detail"]} for r in lost[:20])
+        bad = kept
+    for r in bad:
+        rep.mismatch(r["key"], r["detail"])
     rep.cov["traces_validated_against_impl"] += len(verdicts)
     rep.cov["evaluations"] += len(verdicts)
     if nontrivial:
